@@ -47,7 +47,7 @@ theorem C06_rejected_never (cfg : Cfg) (l : Led) (h : Nat) (s : String) (i : Ibt
     cases ht : i.to with
     | none => rfl
     | some t =>
-      have : (t.chain == cfg.bxh || i.group.isSome || ((!rc.ok || rc.ret == "batch_ibtp") && !i.typ.isResponse) || rc.txStatus == 1) = true := by
+      have : (t.chain == cfg.bxh || (i.group.isSome && !i.typ.isResponse) || ((!rc.ok || rc.ret == "batch_ibtp") && !i.typ.isResponse) || rc.txStatus == 1) = true := by
         rcases hrej with h1 | h1 | h1 <;> simp [h1, hreq]
       simp only [this, if_true]
 
@@ -55,14 +55,17 @@ theorem C06_rejected_never (cfg : Cfg) (l : Led) (h : Nat) (s : String) (i : Ibt
 request no longer waits: it was accepted plainly, or it is counted as invalid ("batch_ibtp" of an
 unordered source service, or rejected) and the record already has a final status.  (Before the
 `fix:` commit "an accepted receipt of an unordered source service leaves the timeout list" every
-"batch_ibtp" receipt was skipped and the request timed out although it had been answered.) -/
+"batch_ibtp" receipt was skipped and the request timed out although it had been answered.)  Whatever the receipt carries
+in its Group field (`g`): before the `fix:` commit "the receipt of a one-to-one transaction leaves the timeout list even if
+it carries a Group" a receipt with the field set was skipped, its request stayed listed and the timeout step later moved
+the final record to BEGIN_ROLLBACK. -/
 theorem C06_receipt_removes (cfg : Cfg) (l : Led) (h : Nat) (s : String) (f t : SvcId) (idx : Nat)
-    (ty : IType) (p : ProofKind) (rc : Rcpt) (r : Rec)
+    (ty : IType) (p : ProofKind) (rc : Rcpt) (r : Rec) (g : Option (List (SvcId × Nat)))
     (hresp : ty.isResponse = true)
     (hnf : rc.txStatus ≠ 1) (hdst : t.chain ≠ cfg.bxh)
     (hrec : l.getS (.txRec { frm := f, to := t, index := idx }) = some (.trec r))
     (hdone : (rc.ok = true ∧ rc.ret ≠ "batch_ibtp") ∨ r.status.isFinal = true) :
-    timeoutAct cfg l h (.ibtp s { frm := some f, to := some t, index := idx, typ := ty, timeout := 0, group := none } p) rc
+    timeoutAct cfg l h (.ibtp s { frm := some f, to := some t, index := idx, typ := ty, timeout := 0, group := g } p) rc
       = .remove r.height { frm := f, to := t, index := idx } := by
   unfold timeoutAct
   have h1 : (t.chain == cfg.bxh) = false := by simpa using hdst
